@@ -18,12 +18,14 @@ RULE = "every parameter identifier the library accepts in the configuration (pro
 
 
 def streams(ctx, scale=1):
-    exe = c03._exe(ctx, "base")
+    import props.c11 as c11
+    exe = c11._exe(ctx, "base")
     lines = ["cfg"]
     # probe every identifier: accepted ones must be in the extracted table and agree with it (the driver checks), and every table
     # entry must be accepted
     rng = ctx.rng
     for cid in range(0, 120):
+        lines.append("ep2_param %d" % cid)    # twist table vs the library (rejected for non-pairing identifiers)
         lines.append("ep_param %d" % cid)
         # endomorphism / lattice constants derived at installation: the decomposition they produce is checked on scalars of every shape
         # (the op answers "no-endom" / is skipped by the oracle on curves without endomorphism or unknown identifiers)
